@@ -113,6 +113,9 @@ func (c *conn) rangeAndClean(f func(index int, resultChan chan data)) {
 }
 
 func (c *conn) Transport(ctx context.Context, request []byte) (response []byte, err error) {
+	if len(request) > maxBodyLength {
+		return nil, core.ErrRequestEntityTooLarge
+	}
 	resultChan := make(chan data, 1)
 	index, ok := c.store(resultChan)
 	if !ok {
